@@ -1087,6 +1087,24 @@ pub fn apply(w: &World, resp: &mut Resp, st: &AdvStep) {
                 }
             }
         }
+        "FakeInsecureSigner" => {
+            // probe only: the RRSIG is rewritten to name the unsigned sibling
+            // zone as signer (signature octets kept, no key needed)
+            if let Some(i) = idx {
+                let signer = w.zone("plain").apex.clone();
+                for r in resp.sets[i].sigs.iter_mut() {
+                    if let D::Rrsig(sg) = r.data() {
+                        let ns = domain::rdata::Rrsig::new(
+                            sg.type_covered(), sg.algorithm(), sg.labels(), sg.original_ttl(),
+                            sg.expiration(), sg.inception(), sg.key_tag(), signer.clone(),
+                            sg.signature().clone(),
+                        )
+                        .unwrap();
+                        *r = Record::new(r.owner().clone(), r.class(), r.ttl(), D::Rrsig(ns));
+                    }
+                }
+            }
+        }
         "SerialInception" => {
             // RFC 4034 3.1.5 / RFC 1982: inception just below 2^32 is "in the
             // past" in serial-number arithmetic
